@@ -141,6 +141,9 @@ def main(tier):
         other = G.build(other_heap)[0]
         other_ref, _ = G.run_impl(other, {})
         for heap, root, cfg in cases:
+            if G.TIMEOUTS[0] >= G.MAX_TIMEOUTS:
+                cases = cases[:len(objsl)]      # the calls that did not return are reported; no more of them
+                break
             objs = G.build(heap)
             objsl.append(objs)
             impl.append(G.run_impl(objs[root], cfg))
